@@ -79,4 +79,11 @@ CHECKS.update({
         "technique": "symbolic execution (CrossHair + z3) of the real set ordering over symbolic permutations; differential runs of the real pipeline under three formatter configurations",
     },
 })
+CHECKS.update({
+    "C18": {
+        "text": "The real pytest_configure / fixture / pytest_sessionfinish run in-process under CrossHair on 22 'something went wrong earlier' templates (failing comparison before later snapshots, exception in the test, nested snapshot() in aligned list/tuple/dict/dataclass of other length, nested snapshot whose parent is replaced, comparisons that raise, mixed operations, changing argument, shared module-level snapshot) with all values and the 4 approval bits symbolic; which alignment the aligner picks - hence whether an inner snapshot is reached only in compare-only mode or its element is deleted - is a solver-explored path; on every path pytest_sessionfinish must return without an exception and the rewritten file must parse.",
+        "note": "The template list is enumerated, not quantified. Hand-written values of the wrong container type for the operation are treated as outside documented usage. Four defects found here were repaired (fix: 917fbbd, 837e23f+follow-up, 60289f9).",
+        "technique": "symbolic execution (CrossHair + z3) of the real end-of-session processing over symbolic values/approvals on failure-shaped templates",
+    },
+})
 NOT_APPLICABLE = {}
